@@ -1,0 +1,47 @@
+//go:build verif
+
+// Hooks used by the external verification harness. This file is only compiled when the "verif"
+// build tag is set; it adds read-only views of unexported functions and changes no behaviour.
+
+package integrity
+
+import (
+	"bytes"
+	"crypto"
+	"encoding/json"
+	"sort"
+
+	"github.com/sylabs/sif/v2/pkg/sif"
+)
+
+// VerifIsLegacySignature exposes isLegacySignature.
+func VerifIsLegacySignature(b []byte) bool { return isLegacySignature(b) }
+
+// VerifIsDSSESignature exposes isDSSESignature.
+func VerifIsDSSESignature(b []byte) bool { return isDSSESignature(bytes.NewReader(b)) }
+
+// VerifIsClearsignSignature exposes isClearsignSignature.
+func VerifIsClearsignSignature(b []byte) bool { return isClearsignSignature(bytes.NewReader(b)) }
+
+// VerifMediaType exposes the DSSE payload type.
+func VerifMediaType() string { return metadataMediaType }
+
+// VerifSupportedDigests returns the names of the supported digest algorithms, sorted.
+func VerifSupportedDigests() []string {
+	var names []string
+	for h, n := range supportedDigestAlgorithms {
+		names = append(names, n+"="+h.String())
+	}
+	sort.Strings(names)
+	return names
+}
+
+// VerifImageMetadataJSON returns the JSON metadata the library would sign for the objects ods of
+// f, relative to minID, using hash h.
+func VerifImageMetadataJSON(f *sif.FileImage, minID uint32, ods []sif.Descriptor, h crypto.Hash) ([]byte, error) {
+	md, err := getImageMetadata(f, minID, ods, h)
+	if err != nil {
+		return nil, err
+	}
+	return json.Marshal(md)
+}
